@@ -17,6 +17,7 @@ def run(tier, replay_file=None):
     n_before = len(chk.obligations)
     c14.part_tokens(C)
     c14.part_transport(C)
+    c14.long_token_transport(C['chk'])
     c14.part_results_page(C, kmax=3 if tier == 'quick' else 5)
     c14.part_page_limit(C)
     facts_ok = all(o['result'] == 'unsat' for o in chk.obligations[n_before:]) and not chk.violations and not chk.mismatches
